@@ -267,6 +267,16 @@ func allShapes(thorough bool) []shape {
 	if stripped, err := shapes.MachOStrip(slim); err == nil {
 		add(shape{ID: "macho/fixture:slimfile/stripped", Type: "mach-o", PType: "macho", Ext: ".macho", Hazard: "unsigned", Source: "derived:slimfile.app/dummyapp", Rounds: 2, Build: fixedBytes(stripped)})
 	}
+	// header padding: bytes left between the load commands and the first section
+	// after a load command was added. Signing needs 16 of them for its own load
+	// command: with fewer it must refuse, never write into the section.
+	if stripped, err := shapes.MachOStrip(slim); err == nil {
+		for _, left := range []int{0, 8, 16, 24, 32, 40} {
+			if padded, ok := machoHeaderPad(stripped, left); ok {
+				add(shape{ID: fmt.Sprintf("macho/fixture:slimfile/stripped/header-padding=%d", left), Type: "mach-o", PType: "macho", Ext: ".macho", Hazard: "header-padding", Source: "derived:slimfile.app/dummyapp", Rounds: 1, Build: fixedBytes(padded)})
+			}
+		}
+	}
 	if slices, err := shapes.MachOThinSlices(shapes.Fixture("fatfile.app/Contents/MacOS/dummy")); err == nil {
 		for i, sl := range slices {
 			add(shape{ID: fmt.Sprintf("macho/fixture:fatfile/slice%d", i), Type: "mach-o", PType: "macho", Ext: ".macho", Hazard: "fat-slice", Source: "derived:fatfile.app", Rounds: 1, Build: fixedBytes(sl)})
